@@ -289,6 +289,9 @@ def run(ctx):
                    'Semaphore::new(%s) vs max_size: %s' % (permits, mx), construct='init-permits', sites=[permits, mx])
             ctx.ob('R01.8', 'size starts at 0', sz == '0_usize', ctx.where(fb, slots_agg[0].line), 'size: %s' % sz, construct='init-size')
 
+    # ---- R01.8 (cont.) the limit used is the limit configured ----------------------------------------------------
+    builder_plumbing(ctx, 'R01.8', ['max_size', 'config'])
+
     # ---- R01.9 conservation on every path (effect ledger, dprules/ledger.py) ---------------------------------
     from .ledger_rules import ledger_obligations
     ledger_obligations(ctx, r, 'R01.9', (0, 1))
